@@ -62,7 +62,21 @@ pub fn run_scenarios(property: &str, args: &Args, scenarios: Vec<Scenario>, tota
 			(Some(a), Some(b)) => Some(a.min(b)),
 			_ => None,
 		};
-		for f in found.into_iter().take(3) {
+		// one representative per root cause (for self-identifying oracles), at most 3 otherwise
+		let mut by_cause: Vec<mc_common::explore::FoundViolation> = Vec::new();
+		let mut generic = 0;
+		for f in found.into_iter() {
+			if f.failure.detail.starts_with("fields=") {
+				let key = f.failure.detail.split(':').next().unwrap_or("").to_string();
+				if !by_cause.iter().any(|g| g.failure.detail.starts_with(&key) && g.failure.oracle == f.failure.oracle) {
+					by_cause.push(f);
+				}
+			} else if generic < 3 {
+				generic += 1;
+				by_cause.push(f);
+			}
+		}
+		for f in by_cause.into_iter() {
 			// determinism rule: a violation is reported only if its replay reproduces twice identically
 			let r1 = explore::replay::<WorldSys>(&*sc.factory, &f.actions, false);
 			let r2 = explore::replay::<WorldSys>(&*sc.factory, &f.actions, false);
@@ -71,7 +85,13 @@ pub fn run_scenarios(property: &str, args: &Args, scenarios: Vec<Scenario>, tota
 			if d1 != d2 {
 				mc_common::cli::die(&format!("NONDETERMINISM replaying {:?}: {} vs {}", f.actions, d1, d2));
 			}
-			let identity = format!("{}|{}|{}", f.failure.oracle, sc.name, f.actions.join(","));
+			// oracles that name the root cause themselves (detail starts with `fields=[..]:`) are identified
+			// by it; all others by scenario + minimal action list
+			let identity = if f.failure.detail.starts_with("fields=") {
+				format!("{}|{}", f.failure.oracle, f.failure.detail.split(':').next().unwrap_or(""))
+			} else {
+				format!("{}|{}|{}", f.failure.oracle, sc.name, f.actions.join(","))
+			};
 			violations.push(Violation {
 				property: property.to_string(),
 				oracle: f.failure.oracle.clone(),
